@@ -4,6 +4,14 @@
 //! constructors/accessors the out-of-tree conformance harness needs. Nothing in
 //! here changes the behaviour of the library.
 
+pub mod bitswap;
+pub mod decoders;
+pub mod mgr;
+pub mod mss;
+pub mod noise;
+pub mod substream;
+pub mod svc;
+
 pub mod kad {
     pub use crate::protocol::libp2p::kademlia::verif::*;
 }
